@@ -254,7 +254,7 @@ PROPS["C10"] = dict(
     distinct_key="outcomes",
     assumptions=E1_ASSUME + ["TSan keeps a bounded per-location access history: a race whose two accesses are separated by very many accesses to the same cell can be missed within one execution", "the harness' own bookkeeping (scheduler, VFS) is excluded from race detection by construction (uninstrumented TUs + ignore scopes)"],
     stages=[dict(name="mc-tsan", driver="mc", flavour="tsan", args=["--prop", "C10"],
-                 quick=["--scenarios", MC_ALL, "--bound", "1"], thorough=["--scenarios", "D1,D1f,D2,D3,D4b,D8,D10,D11,D15,D16,D14,D5", "--bound", "2"]),
+                 quick=["--scenarios", MC_ALL, "--bound", "1"], thorough=["--scenarios", "D1,D2,D3,D8,D10,D11,D15,D16", "--bound", "2"]),
             dict(name="mc-tsan2", driver="mc", flavour="tsan", args=["--prop", "C10"], tiers=["quick"],
                  quick=["--scenarios", "D15,D10,D11", "--bound", "2"]),
             dict(name="mc-asan", driver="mc", flavour="asan", args=["--prop", "C10"],
@@ -265,7 +265,7 @@ PROPS["C04"] = dict(
     technique="(a) crash-point x crash-image enumeration with cuts inside every log fragment, marker keys make a half-applied batch visible; (b) stateless schedule exploration of group commit vs snapshot/iterator readers with a linearizability oracle over multi-key batches",
     rule="(a) histories with 1/2/3-update batches (thorough: a 700-update batch over 4 log blocks) x every journal index x {max, torn cuts} images: recovered contents = fold of whole batches; (b) scenarios D2, D2b, D3: every schedule within the bound: every snapshot read / scan sees both keys of a batch or neither; distinct = distinct outcomes",
     distinct_key="outcomes", assumptions=E3_ASSUME + E1_ASSUME,
-    stages=[e3_stage("C04", 2, 3, "B1", "B1;B1,snappy=1", classes=0x22),
+    stages=[e3_stage("C04", 2, 2, "B1", "B1;B1,snappy=1;B1,reuse=1", classes=0x22),
             dict(name="mc", driver="mc", flavour="asan", args=["--prop", "C04"],
                  quick=["--scenarios", "D2,D2b,D3", "--bound", "2"], thorough=["--scenarios", "D2,D2b,D3", "--bound", "3"])],
 )
@@ -357,13 +357,15 @@ PROPS["C20"]["assumptions"] = PROPS["C20"]["assumptions"] + E1_ASSUME[:3]
 for _p in ("C02", "C03"):
     PROPS[_p]["stages"].append(dict(name="mc-crash", driver="mc", flavour="asan", args=["--prop", _p, "--crash", "1"],
                                     quick=["--scenarios", "D4,D4b,D1f,D14", "--bound", "2"],
-                                    thorough=["--scenarios", "D4,D4b,D4c,D1f,D6,D2,D3,D14", "--bound", "3"]))
+                                    thorough=["--scenarios", "D4,D4b,D4c,D1f,D6,D2,D3,D14", "--bound", "2"]))
+    PROPS[_p]["stages"].append(dict(name="mc-crash-b3", driver="mc", flavour="asan", args=["--prop", _p, "--crash", "1"], tiers=["thorough"],
+                                    thorough=["--scenarios", "D4b,D4", "--bound", "3"]))
     PROPS[_p]["rule"] += ("; concurrent stage: for every schedule (deviation bound) of scenarios with sync and non-sync writers, group commit, memtable switch and background flush, "
                           "every journal index of that interleaved execution is a crash point with images {min, max, dir-ahead, data-ahead}: a batch acknowledged with sync before the crash survives every image, every acknowledged batch survives the process-crash image")
     PROPS[_p]["assumptions"] = PROPS[_p]["assumptions"] + E1_ASSUME[:3]
 
 PROPS["C13"]["stages"].append(dict(name="mc-crash", driver="mc", flavour="asan", args=["--prop", "C13", "--crash", "1"],
-                                   quick=["--scenarios", "D14,D1f", "--bound", "2"], thorough=["--scenarios", "D14,D1f,D3,D6", "--bound", "3"]))
+                                   quick=["--scenarios", "D14,D1f", "--bound", "2"], thorough=["--scenarios", "D14,D1f,D3,D6", "--bound", "2"]))
 PROPS["C13"]["rule"] += ("; concurrent stage: a writer fills and switches the memtable while a compaction is in its unlocked tail (scenario D14) and while a flush is in flight (D1f): "
                          "for every schedule within the bound, at every journal index (in particular right after every unlink issued by obsolete-file removal) the process-crash image must still "
                          "contain every acknowledged batch, i.e. no log or table holding data of an in-progress flush/compaction was removed")
